@@ -109,6 +109,21 @@ def main():
             else:
                 v = ord(g)
             lines.append(f"def {n} : Nat := {v}")
+    # shared mutable state: every `static` / `thread_local` VARIABLE (not const / constexpr, not a function) declared anywhere in
+    # the library headers - a new one is a new way for independent threads / documents to interact (C17, C13)
+    stat = []
+    rx_static = re.compile(r"^\s*(?:static|thread_local)\s+(?!const\b|constexpr\b|inline\b|sonic_\w+|SONIC_\w+|__attribute__)"
+                           r"([\w:<>,\*&\s]+?)\s+(\w+)\s*(?:\{[^}]*\}|=[^;]*|\[[^\]]*\])?\s*;")
+    for root, _dirs, files in sorted(os.walk(inc)):
+        for fn in sorted(files):
+            if not fn.endswith(".h"):
+                continue
+            path = os.path.join(root, fn)
+            for line in open(path, errors="replace"):
+                m = rx_static.match(line)
+                if m:
+                    stat.append(f"{os.path.relpath(path, inc)}:{' '.join(m.group(1).split())} {m.group(2)}")
+    lines.append("def mutableStatics : List String := [" + ", ".join('"' + x + '"' for x in stat) + "]")
     if missing:
         print("extract_consts: " + "; ".join(missing), file=sys.stderr)
         sys.exit(2)
